@@ -706,6 +706,12 @@ fn c16(st: &mut Stats, _max: u32) -> Res {
         ("(u8,)", meta_type::<(u8,)>(), TypeId::of::<(u8,)>()),
         ("(u8,u8)", meta_type::<(u8, u8)>(), TypeId::of::<(u8, u8)>()),
         ("[u8]", meta_type::<[u8]>(), TypeId::of::<[u8]>()),
+        ("Lsb0", meta_type::<bitvec::order::Lsb0>(), TypeId::of::<bitvec::order::Lsb0>()),
+        ("Msb0", meta_type::<bitvec::order::Msb0>(), TypeId::of::<bitvec::order::Msb0>()),
+        ("BitVec<u8,Msb0>", meta_type::<bitvec::vec::BitVec<u8, bitvec::order::Msb0>>(), TypeId::of::<bitvec::vec::BitVec<u8, bitvec::order::Msb0>>()),
+        ("BitVec<u8,Lsb0>", meta_type::<bitvec::vec::BitVec<u8, bitvec::order::Lsb0>>(), TypeId::of::<bitvec::vec::BitVec<u8, bitvec::order::Lsb0>>()),
+        ("Duration", meta_type::<std::time::Duration>(), TypeId::of::<std::time::Duration>()),
+        ("(u64,u32)", meta_type::<(u64, u32)>(), TypeId::of::<(u64, u32)>()),
         ("str", meta_type::<str>(), TypeId::of::<str>()),
         ("NonZeroU8", meta_type::<core::num::NonZeroU8>(), TypeId::of::<core::num::NonZeroU8>()),
         ("Duration", meta_type::<std::time::Duration>(), TypeId::of::<std::time::Duration>()),
